@@ -4,6 +4,12 @@ import json, os
 HERE = os.path.dirname(os.path.dirname(os.path.abspath(__file__)))
 
 CLAIMED = {
+    "C12": dict(
+        technique="decision/effect extraction from MIR for the iterators, get_match, the five kinds' applies, PushCondition dispatch, operator table; constant-order rule for key escaping; field-read rule for rule identity",
+        text="Decides kind priority and wrapping, first-match semantics, own-event and disabled-rule exclusion, condition dispatch incl. _Custom -> false, word matching requested only for content.body/display name, "
+             "RoomMemberCountIs prefix->operator and bound tables, escape order `\\` before `.`, rule identity = rule_id. Glob / word-boundary / regex semantics and FlattenedJson for all inputs are NOT decided.",
+        note="Trusted: regex, wildmatch crates; SenderNotificationPermission formula is decided in C20.",
+        design="DESIGN.md §4 C12"),
     "C14": dict(
         technique="const-evaluated phf allow-lists vs spec + loop-shape rule (no early accept in a for-all loop) on the CFG + decision extraction of the node dispatch",
         text="Decides: allow-lists/schemes/classes/depth equal the specification's; the scheme check cannot accept from inside the attribute loop; text kept, other node kinds removed; "
